@@ -77,6 +77,8 @@ ApplyFn(f, v) ==
     [] f = "zero"  -> Ok(PInt(0))
     [] f = "boom"  -> Err(v, {"ZeroDivisionError"})
     [] f = "boom1" -> IF IsIntLike(v) /\ IntVal(v) = 1 THEN Err(v, {"ZeroDivisionError"}) ELSE Ok(v)   \* raises on input 1
+    \* a preparer of a nested spec value that refuses children whose v is 1 (raises AFTER the nested value has been worked on)
+    [] f = "boomv1" -> IF v.t = "obj" /\ "v" \in DOMAIN v.a /\ v.a.v = PInt(1) THEN Err(v, {"ZeroDivisionError"}) ELSE Ok(v)
     [] f = "up"    -> IF v.t = "str" THEN Ok(PStr(IF v.s = "a" THEN "b" ELSE "a")) ELSE Err(v, {"AttributeError", "TypeError"})
     [] f = "bumpv" -> IF v.t = "obj" /\ "v" \in DOMAIN v.a /\ IsIntLike(v.a.v) THEN Ok([v EXCEPT !.a.v = PInt((IntVal(v.a.v) + 1) % 3)])
                       ELSE Err(v, {"AttributeError", "TypeError"})
@@ -226,9 +228,13 @@ UpdateA(CT, o, a, v, kw) ==
   IF v = Unchanged THEN Ok(o)
   \* (a replacement value that still needs the preparer, combined with keywords: the order of the two is not documented)
   ELSE IF ~IsMissing(v) /\ kw # <<>> /\ ASpec(CT, o.c, a).prep # "none" THEN Err(o, {"unspecified"})
+  \* (likewise a dict standing for constructor keywords: update_ builds the value first and prepares it then, with_ the other way round)
+  ELSE IF v.t = "dict" /\ IsSpecTy(CT, T) /\ ASpec(CT, o.c, a).prep # "none" THEN Err(o, {"unspecified"})
   ELSE IF ~IsMissing(v) THEN With(CT, o, a, v, kw)
   ELSE IF ~IsSpecTy(CT, T) THEN (IF kw = <<>> /\ ~IsMissing(old) THEN With(CT, o, a, old, <<>>) ELSE Err(o, {"unspecified"}))
-  ELSE IF IsMissing(old) THEN With(CT, o, a, PMissing, kw)
+  \* nothing to merge into: the nested value is built from the keywords and then assigned like any value (preparer included)
+  ELSE IF IsMissing(old) THEN (IF ASpec(CT, o.c, a).prep = "none" THEN With(CT, o, a, PMissing, kw)
+                               ELSE LET b == Construct(CT, T.c, kw) IN IF ~IsOk(b) THEN Err(o, b.res) ELSE With(CT, o, a, b.val, <<>>))
   ELSE LET m == SetMany(CT, old, kw, 1) IN IF ~IsOk(m) THEN Err(o, m.res) ELSE With(CT, o, a, m.val, <<>>)
 
 RECURSIVE TransformMany(_, _, _, _)
@@ -248,8 +254,10 @@ TransformA(CT, o, a, f, kwf) ==
             IF ~IsOk(r2) THEN Err(o, r2.res) ELSE With(CT, o, a, r2.val, <<>>)
 
 \* reset_<a> / del o.a : back to the default (a fresh copy), missing when there is none
+\* (the default is stored as declared, without the preparer; like any value it must conform to the attribute's type)
 ResetA(CT, o, a) ==
   IF IsMissing(o.a[a]) /\ IsMissing(DefaultOf(CT, o.c, a)) THEN Ok(o)      \* already missing, nothing to restore: stays missing
+  ELSE IF ~IsMissing(DefaultOf(CT, o.c, a)) /\ ~ConfC(CT, DefaultOf(CT, o.c, a), ASpec(CT, o.c, a).ty) THEN Err(o, {"TypeError"})
   ELSE Ok(Invalidate(CT, [o EXCEPT !.a[a] = DefaultOf(CT, o.c, a)], a))
 
 RECURSIVE ResetAll(_, _, _)
@@ -344,7 +352,7 @@ ElemOp(CT, c, a, coll0, act) ==
                      it == CheckItem(CT, c, a, g) IN
                  IF ~IsOk(it) THEN it ELSE KLCheck(CT, coll, [l EXCEPT ![loc.pos + 1] = it.val])
        [] act.op = "without_item" ->
-            IF IsMissing(coll0) THEN Err(coll0, {"ok", "IndexError", "ValueError", "KeyError"})     \* nothing to remove from (A7): no-op or error
+            IF IsMissing(coll0) THEN Err(coll0, {"ok", "IndexError", "ValueError", "KeyError"} \cup (IF act.voi.t = "int" THEN {} ELSE {"TypeError"}))     \* nothing to remove from (A7): no-op or a lookup error
             ELSE LET loc == SeqLocate(CT, c, a, coll, act.voi, act.byidx) IN
                  IF ~loc.found THEN Err(PMissing, loc.res) ELSE Ok([coll EXCEPT !.e = RemAt(l, loc.pos)])
   ELSE IF fam = "map" THEN
@@ -443,7 +451,7 @@ IsInplaceForm(act) == act.op \in {"setattr", "delattr", "read", "override", "del
 Apply(CT, o, act) ==
   LET noop == [val |-> o, res |-> {"ok"}, same |-> TRUE]
       out(r, inplace) == [val |-> r.val, res |-> r.res, same |-> inplace]
-      inpl == IsInplaceForm(act)
+      inpl == IsInplaceForm(act) \/ CT[o.c].dnc          \* a class declared do_not_copy=True: "all mutations will be done inplace"
   IN CASE act.op = "with"      -> IF act.v = Unchanged THEN noop ELSE out(With(CT, o, act.attr, act.v, act.kw), inpl)
          [] act.op = "update"    -> IF act.v = Unchanged THEN noop ELSE out(UpdateA(CT, o, act.attr, act.v, act.kw), inpl)
          [] act.op = "transform" -> out(TransformA(CT, o, act.attr, act.f, act.kwf), inpl)
@@ -457,7 +465,8 @@ Apply(CT, o, act) ==
                                      ELSE out(UpdateTop(CT, o, act.kw), inpl)
          [] act.op = "transform_top" -> IF act.kwf = <<>> THEN noop
                                            ELSE out(TransformTop(CT, o, act.kwf), inpl)
-         [] act.op = "reset_top" -> out(Ok(ResetAll(CT, o, 1)), inpl)
+         [] act.op = "reset_top" -> IF \E a \in AttrSet(CT, o.c) : ~IsMissing(DefaultOf(CT, o.c, a)) /\ ~ConfC(CT, DefaultOf(CT, o.c, a), ASpec(CT, o.c, a).ty)
+                                    THEN [val |-> o, res |-> {"TypeError"}, same |-> inpl] ELSE out(Ok(ResetAll(CT, o, 1)), inpl)
          [] act.op = "read"     -> LET r == ReadProp(CT, o, act.p) IN [val |-> IF r.res = {"ok"} THEN r.o ELSE o, res |-> r.res, same |-> TRUE, ret |-> r.v]
          [] act.op = "override" -> [val |-> Invalidate(CT, [o EXCEPT !.x[act.p] = act.v, !.ov[act.p] = TRUE], act.p), res |-> {"ok"}, same |-> TRUE]
          [] act.op = "delprop"  -> IF IsMissing(o.x[act.p]) THEN [val |-> o, res |-> {"AttributeError"}, same |-> TRUE]
@@ -465,11 +474,11 @@ Apply(CT, o, act) ==
 
 
 IsNoopForm(act) == \/ (act.op = "update_top" /\ act.kw = <<>>) \/ (act.op = "transform_top" /\ act.kwf = <<>>)
-                   \/ (act.op \in {"with", "update"} /\ act.v = Unchanged)
+                   \/ (act.op \in {"with", "update", "setattr"} /\ act.v = Unchanged)
 StepF(CT, o, act) ==
   LET noop == [val |-> o, res |-> {"ok"}, same |-> TRUE]
       out(r, inplace) == [val |-> r.val, res |-> r.res, same |-> inplace]
-      inpl == IsInplaceForm(act)
+      inpl == IsInplaceForm(act) \/ CT[o.c].dnc          \* (a do_not_copy=True class works in place: on a frozen one that is rejected like any in-place call)
   IN
   \* a keyword outside the advertised signature is rejected by the generated wrapper before anything else (C17)
   IF act.op = "update_top" /\ ~(KwNames(act.kw) \subseteq AttrSet(CT, o.c)) THEN [val |-> o, res |-> {"TypeError"}, same |-> TRUE]
